@@ -988,6 +988,12 @@ async fn run_c13_async(plan: C13Plan, sched: Sched, record: bool) -> Outcome {
         // a flush of the local writer that cannot complete holds up the peer-to-local direction
         // only: what the local side has ready (bytes, its end, an error) is still taken and relayed
         // as long as there is credit for it
+        // the bridge is idle at quiescence: whatever the local side has ready (bytes, its end, an
+        // error) must have been taken as long as there is credit for it - nothing but the local
+        // side and the credit may be needed to move it
+        if !l.flush_stuck && l.read_ready && !(l.read_err || l.write_err || l.flush_err || l.shutdown_err) && !peer_reset && a_reset == 0 && pushes_from_a < granted && s.task_end.borrow().is_none() {
+            o.violate("C13:local-side-not-read", format!("the local side has output or its end ready and the bridge has credit ({pushes_from_a} of {granted} used), but the bridge is idle at quiescence without having read it; {desc}"));
+        }
         if l.flush_stuck {
             o.probe("fault:local-flush-stuck", 1);
             if l.read_ready && !(l.read_err || l.write_err || l.flush_err || l.shutdown_err) && !peer_reset && a_reset == 0 && pushes_from_a < granted && s.task_end.borrow().is_none() {
